@@ -1,4 +1,4 @@
-// c03_native.cpp -- replay / sweep for C03 on the natively Verilated model (verilator --public-flat-rw).
+// c03_native.cpp -- replay / sweep for C03 on the natively Verilated model (verilator --trace, as the CMake build).
 //   replay <pc> <areg> <breg> <oreg> <word at pc>>2> <ea> <data at ea>
 //   sweep <seed> <n>
 #include <cstdio>
@@ -9,6 +9,7 @@
 #include <memory>
 #include <verilated.h>
 #include "Vhexn.h"
+#include "Vhexn__Syms.h"
 #include "Vhexn___024root.h"
 #include "Vhexn_hex.h"
 #include "Vhexn_processor.h"
@@ -25,9 +26,10 @@ struct Dut {
   Vhexn_processor *r() { return top->hex->u_processor; }
   uint32_t *mem() { return &top->hex->u_memory->memory_q[0]; }
   void set(uint32_t pc, uint32_t a, uint32_t b, uint32_t o) {
-    r()->pc_q = pc & 0x1FFFFF; r()->areg_q = a;
-    r()->breg_q = b; r()->oreg_q = o;
-    top->i_clk = 0; top->i_rst = 0; top->eval();  // settle nets with the planted registers (clock low: no edge)
+    r()->pc_q = pc & 0x1FFFFF; r()->__PVT__areg_q = a;
+    r()->__PVT__breg_q = b; r()->__PVT__oreg_q = o;
+    // settle every net with the planted registers: re-run the generated initial/settle code (as at time zero) with clock and reset low
+    top->i_clk = 0; top->i_rst = 0; top->rootp->vlSymsp->__Vm_didInit = false; top->eval();
   }
 };
 
@@ -50,14 +52,14 @@ static std::string clockVsIsa(Dut &d, uint32_t pc, uint32_t a, uint32_t b, uint3
   auto *r = d.r();
   if (why.empty()) {
     if (r->pc_q != s.pc) why = "pc";
-    else if (r->areg_q != s.areg) why = "areg";
-    else if (r->breg_q != s.breg) why = "breg";
-    else if (r->oreg_q != s.oreg) why = "oreg";
+    else if (r->__PVT__areg_q != s.areg) why = "areg";
+    else if (r->__PVT__breg_q != s.breg) why = "breg";
+    else if (r->__PVT__oreg_q != s.oreg) why = "oreg";
     else if (w.wr && M[w.waddr] != w.wdata) why = "stored word";
   }
-  uint32_t pc1 = r->pc_q, a1 = r->areg_q;
+  uint32_t pc1 = r->pc_q, a1 = r->__PVT__areg_q;
   d.top->i_clk = 0; d.top->eval();
-  if (why.empty() && (r->pc_q != pc1 || r->areg_q != a1)) why = "state changed on the falling edge";
+  if (why.empty() && (r->pc_q != pc1 || r->__PVT__areg_q != a1)) why = "state changed on the falling edge";
   if (w.wr) M[w.waddr] = oldw;
   return why;
 }
